@@ -355,14 +355,14 @@ func checkC03(c *Ctx) {
 			continue
 		}
 		for i, cl := range core.CallsIn(f) {
-			if cl.Static == nil || o.arming[cl.Static] == nil || cl.Value() == nil || cl.Static.Signature.Results().Len() == 0 {
+			tgt, off := c.armTarget(o, nil, cl)
+			if tgt == nil || cl.Value() == nil || tgt.fn.Signature.Results().Len() == 0 || tgt.pktIdx-off < 0 {
 				continue
 			}
 			c.R.Fn(c.fname(f))
-			tgt := o.arming[cl.Static]
-			key := fmt.Sprintf("failed arming (call %d to %s) in %s", i, c.fname(cl.Static), c.fname(f))
+			key := fmt.Sprintf("failed arming (call %d to %s) in %s", i, c.fname(tgt.fn), c.fname(f))
 			// the identifier stored into the packet's MessageId
-			mid := complitOrStoredFieldAt(cl.Common.Args[tgt.pktIdx], "MessageId", cl.Instr)
+			mid := complitOrStoredFieldAt(cl.Common.Args[tgt.pktIdx-off], "MessageId", cl.Instr)
 			paths, err := core.EnumPaths(f, core.PathOpts{Start: cl.Instr.Block(), Stop: func(b *ssa.BasicBlock) bool { return b == cl.Instr.Block() }})
 			if err != nil {
 				ru3.Undecided(key, c.whereI(cl.Instr), err.Error())
@@ -477,7 +477,7 @@ func (c *Ctx) encoderWrites(fn *ssa.Function) []*core.Call {
 func complitOrStoredFieldAt(v ssa.Value, name string, at ssa.Instruction) ssa.Value {
 	v0 := core.Strip(v)
 	switch v0.(type) {
-	case *ssa.Alloc, *ssa.Parameter: // an object built here, or one handed to this helper and completed here
+	case *ssa.Alloc, *ssa.Parameter, *ssa.Call: // an object built here (or by a constructor called here), or one handed to this helper and completed here
 	default:
 		return nil
 	}
